@@ -514,6 +514,12 @@ def generate_facts(repo):
       before(dr, '== 1', 'written_size.fetch_max(size', 'AppendInFlight::drop') and
       sy.count('written_size.fetch_max(') + sy.count('written_size.store(') + sy.count('written_size.fetch_add(') == 1), 'src/io/unix/sync.rs',
       'end of an append: `size` is read BEFORE the in-flight counter is decremented and `written_size` is raised to it only by the append that was the last one in flight (Conc/SyncAcct.v steps A4, A5)')
+    waa = Lazy(lambda: body_with(sy, 'write_append_all', ['reserve(']))
+    wfi = Lazy(lambda: body_with(sy, 'wait_for_appends_in_flight', ['appends_in_flight']))
+    F('APPEND_WAITS_FOR_APPENDS_IN_FLIGHT', lambda: (before(a, 'self.wait_for_appends_in_flight().await', 'AppendInFlight::reserve(', 'write_append_writable_data') and
+      before(waa, 'self.wait_for_appends_in_flight().await', 'AppendInFlight::reserve(', 'write_append_all') and
+      re.search(r'while\s+self\.inner\.appends_in_flight\.load\(Ordering::SeqCst\)\s*>\s*0', str(wfi)) is not None), 'src/io/unix/sync.rs',
+      'an append starts only when no other append to the file is in flight (an append whose caller was dropped keeps running): the single-writer discipline `sstep` of Conc/SyncAcct.v')
     bc = S('src/blob/core.rs')
     rc = Lazy(lambda: body_with(bc, 'read_current_record', ['meta_size']))
     F('SCAN_CHECKS_RECORD_END', lambda: (before(rc, '+= header.meta_size()', '> self.file.size()', 'read_current_record') and
